@@ -10,6 +10,7 @@ import (
 	"path/filepath"
 	"reflect"
 	"regexp"
+	"runtime"
 	"strconv"
 	"strings"
 	"unicode/utf8"
@@ -232,6 +233,14 @@ func nestedCall() {
 		wr.Capitalize = spg.CSRandom
 		_, _ = wr.Generate()
 	}
+}
+
+func bitsSet(v uint32) int {
+	n := 0
+	for ; v != 0; v &= v - 1 {
+		n++
+	}
+	return n
 }
 
 func planOf(s string) []resp {
@@ -805,6 +814,19 @@ func (e *executor) exec1(line, lean string) string {
 		if math.Float32bits(ent) != math.Float32bits(ent2) && !(ent != ent && ent2 != ent2) {
 			d = fmt.Sprintf("D=UNSTABLE(%v,%v)", ent, ent2)
 		}
+		// a function of the recipe alone — not of how many processors the process may use
+		if len(spec.rs)+bitsSet(spec.require) >= 2 && spec.L >= 0 && spec.L <= 64 {
+			prev := runtime.GOMAXPROCS(0)
+			for _, k := range []int{1, 3, 5, 6, 7} {
+				runtime.GOMAXPROCS(k)
+				ek := r.Entropy()
+				if math.Float32bits(ek) != math.Float32bits(ent) && !(ek != ek && ent != ent) {
+					d = fmt.Sprintf("D=UNSTABLE(%v,with-GOMAXPROCS=%d:%v)", ent, k, ek)
+				}
+			}
+			runtime.GOMAXPROCS(prev)
+			capt.take()
+		}
 		if spec.L < 0 || (spec.L == 0 && n == 0) {
 			// Entropy() of a negative length, and 0·log2(0), are outside every property (DESIGN §9)
 			if v, ok := field(lean, "D"); ok {
@@ -1185,13 +1207,23 @@ func (e *executor) exec1(line, lean string) string {
 				types = append(types, byte(t))
 			}
 		}
-		ts := spg.VerifTokens(vals, types)
+		// the caller's token slice is a PREFIX of a longer one (the first tokens of a password, say):
+		// classifying or indexing the prefix must leave the rest of the caller's array alone
+		guardV := append(append([]string{}, vals...), "GUARD-0", "GUARD-1", "GUARD-2")
+		guardT := append(append([]byte{}, types...), 1, 0, 1)
+		whole := spg.VerifTokens(guardV, guardT)
+		ts := whole[:len(vals)]
 		var ix spg.Indices
 		var err error
-		ro := withReader(&scripted{}, func() { ix, err = ts.MakeIndices() })
+		ro := withReader(&scripted{}, func() { ix, err = ts.MakeIndices(); _ = ts.Kind(); _ = ts.Atoms(); _ = ts.Separators() })
 		_, _, unk := classifyOutput(capt.take())
 		if ro.panicked {
 			return "panic other:" + encHex([]byte(ro.panicMsg))
+		}
+		for i := len(vals); i < len(whole); i++ {
+			if whole[i].Value() != guardV[i] || byte(whole[i].Type()) != guardT[i] {
+				return "MUTATED=caller-tokens-beyond-len(token " + strconv.Itoa(i-len(vals)) + " after the indexed prefix was overwritten)" + unknownField(unk)
+			}
 		}
 		if err != nil {
 			branch("mkidx:err")
